@@ -162,15 +162,24 @@ func totalRecs() int {
 	return n
 }
 
+// waitLimit: how long a delivery may take. Once a wait has failed in this process the verdict is a
+// violation anyway; the runs that follow only minimise the sequence and wait a tenth as long (a
+// shrink attempt that fails costs one full wait).
+var waitLimit = 5 * time.Second
+
 func waitFor(cond func() bool) bool {
-	deadline := time.Now().Add(5 * time.Second)
+	deadline := time.Now().Add(waitLimit)
 	for time.Now().Before(deadline) {
 		if cond() {
 			return true
 		}
 		time.Sleep(100 * time.Microsecond)
 	}
-	return cond()
+	if cond() {
+		return true
+	}
+	waitLimit = 500 * time.Millisecond
+	return false
 }
 
 // runSeq executes ops against the library and the model; returns a violation message or "".
